@@ -175,6 +175,80 @@ def fix_timeline(ck, b, name, fd, restart=False):
             b.tick()
 
 
+def node_scan_covers(ck, b, name):
+    """a whole-node scan covers every installed service and application, whatever its operating state: when it completes the
+    visible health of each equals its true health at that moment"""
+    s = b.sw(name)
+    for state_verb in (None, "pause", "stop", "restart", "close"):
+        if state_verb in ("pause", "stop", "restart") and not b.is_service(name):
+            continue
+        if state_verb == "close" and b.is_service(name):
+            continue
+        if s.operating_state.name != "RUNNING":
+            if b.is_service(name):
+                for v in ("enable", "start", "resume"):
+                    b.req(name, v)
+                for _ in range(4):
+                    b.tick()
+            else:
+                s.operating_state = type(s.operating_state).RUNNING
+        if s.operating_state.name != "RUNNING":
+            continue
+        b.req(name, "scan")
+        b.req(name, "compromise")                     # true health changes after it was last seen
+        if state_verb:
+            s.restart_duration = 5
+            b.req(name, state_verb)
+        before = (s.operating_state.name, s.health_state_actual.name, s.health_state_visible.name)
+        b.apply(name, ("NodeScan",))                 # duration 1: completes in the tick applied here
+        ck.evaluations += 1
+        ck.case(canon=("node-scan-covers", name, state_verb), nontrivial=state_verb is not None)
+        if s.health_state_visible != s.health_state_actual:
+            ck.violation("node-scan-left-stale-visible-health:%s" % (state_verb or "running"),
+                         "%s (%s) true health %s: the whole-node scan completed but its visible health is still %s"
+                         % (name, before[0], s.health_state_actual.name, s.health_state_visible.name),
+                         {"software": name, "state": before[0], "true": s.health_state_actual.name, "visible": s.health_state_visible.name})
+            return
+        b.req(name, "fix")
+        for _ in range(8):
+            b.tick()
+
+
+def db_restore_visible(ck):
+    """the database file is a file like any other: restoring it from the backup server (explicitly, or at the completion of a
+    service fix) is no scan -- what a defender last saw of it must stay what it was until the next scan"""
+    from props import c17
+    import random as _r
+    for last_seen, how in (("GOOD", "restore"), ("GOOD", "fix"), ("CORRUPT", "restore"), ("COMPROMISED", "fix")):
+        b = c17.Bench(_r.Random(3), "secret", 3, 0, 2)
+        fs = b.srv.file_system
+        ctx = {"last_seen": last_seen, "restored_by": how}
+        if not b.backup():
+            ck.count("skipped:backup-failed")
+            continue
+        f = fs.get_file("database", "database.db")
+        if last_seen != "GOOD":
+            f.health_status = type(f.health_status)[last_seen]
+        f.scan()
+        seen = f.visible_health_status.name
+        b.tick()
+        if how == "restore":
+            b.restore()
+        else:
+            b.compromise(); b.service("fix")
+            for _ in range(4):
+                b.tick()
+        f2 = fs.get_file("database", "database.db")
+        ck.evaluations += 1
+        ck.case(canon=("db-restore-visible", last_seen, how), nontrivial=True)
+        if f2 is None:
+            continue
+        if f2.visible_health_status.name != seen:
+            ck.violation("visible-health-changed-without-scan:database-file", "database.db was last scanned as %s; after the %s (no scan in between) its visible health is %s"
+                         % (seen, "explicit restore from backup" if how == "restore" else "service fix that restores the backup", f2.visible_health_status.name),
+                         dict(ctx, visible_before=seen, visible_after=f2.visible_health_status.name, true_health=f2.health_status.name))
+
+
 def run(ck):
     ck.rule = ("(a) op sequences on a folder with 0-3 files: file scan/repair/corrupt/restore, folder scan/repair/corrupt/restore, whole-node scan, ticks, "
                "for folder scan / restore / node scan durations in {0,1,2,3} incl. overlapping scans and a second corruption during a scan; after every op "
@@ -197,6 +271,7 @@ def run(ck):
     if mism is not None:
         ck.obligation("correspondence File/Folder/Node scan health = Model.FileHealth on %d op sequences" % len(coq_in), "correspondence", not mism,
                       "" if not mism else "first mismatch: case %d model=%s impl=%s input=%s" % (mism[0][0], mism[0][1][-40:], coq_in[mism[0][0]][1][-40:], coq_in[mism[0][0]][0][:400]))
+    db_restore_visible(ck)
     # software
     for fd in (0, 1, 2, 3):
         b = SwBench()
@@ -204,6 +279,9 @@ def run(ck):
             fix_timeline(ck, b, name, fd)
         for name in b.services:
             fix_timeline(ck, b, name, fd, restart=True)
+    b = SwBench()
+    for name in b.services + b.apps:
+        node_scan_covers(ck, b, name)
     sw_in = []
     b0 = SwBench()
     for name in b0.services + b0.apps:
